@@ -26,6 +26,7 @@ import (
 	"google.golang.org/protobuf/encoding/prototext"
 	"google.golang.org/protobuf/internal/encoding/defval"
 	"google.golang.org/protobuf/internal/encoding/tag"
+	"google.golang.org/protobuf/internal/filedesc"
 	vh "google.golang.org/protobuf/internal/zz_verif_vh"
 	"google.golang.org/protobuf/proto"
 	"google.golang.org/protobuf/protoadapt"
@@ -125,6 +126,11 @@ func (noEnumValues) ByName(protoreflect.Name) protoreflect.EnumValueDescriptor  
 // The default is checked against defval.Unmarshal of the text the model says was handed over.
 func unmarshalView(c *vh.Ctx, tagStr, gk string, evs protoreflect.EnumValueDescriptors, modelAns string, in any) string {
 	fd := tag.Unmarshal(tagStr, goTypes[gk], evs)
+	if f, ok := fd.(*filedesc.Field); ok && f.L1.Kind == protoreflect.GroupKind && f.L1.Message == nil {
+		// tag.Unmarshal leaves Message unset (its caller fills it in); the lazily computed names of a
+		// group field consult it
+		f.L1.Message = filedesc.PlaceholderMessage("verif.Placeholder")
+	}
 	jsonExplicit := "none"
 	if fd.HasJSONName() {
 		jsonExplicit = vh.Hex([]byte(fd.JSONName()))
@@ -244,6 +250,9 @@ func tagCorrespondence(c *vh.Ctx) {
 			}
 			// direct property: the round trip of the attributes, under the hypotheses of C46.unmarshal_marshal
 			rt := tag.Unmarshal(got, goTypes[goKindFor(fd.Kind())], evs)
+			if f, ok := rt.(*filedesc.Field); ok && f.L1.Kind == protoreflect.GroupKind && f.L1.Message == nil {
+				f.L1.Message = fd.Message()
+			}
 			wf := !fd.IsExtension() && !strings.ContainsAny(name+fd.JSONName()+enumName+msgName, ",") &&
 				(fd.Kind() != protoreflect.EnumKind || enumName != "") &&
 				(fd.Kind() != protoreflect.GroupKind || name == strings.ToLower(msgName)) &&
@@ -347,6 +356,93 @@ type voice struct {
 	flat *Flat
 }
 
+// knownSig classifies failures of the struct-tag-only twins of the proto3 generations whose tags do not
+// yet carry the `proto3` token (before 2018-08-14): aberrantLoadMessageDesc recognises the message as
+// proto3 from its Go scalar types, but its fields keep the proto2 features tag.Unmarshal gave them.
+func (v *voice) knownSig() string {
+	if v.kind == "twin" && v.gen.Syntax == "proto3" && v.gen.Dir < "proto3_20180814" {
+		return "aberrant-proto3-fields-keep-proto2-features"
+	}
+	return ""
+}
+
+// twinWitness replays the witness of the known finding `aberrant-proto3-fields-keep-proto2-features` on a
+// twin: optional_sfixed32 (108) = -1 and nothing else.  The twin must marshal to e506ffffffff like the
+// same struct seen through its raw descriptor, and its scalar fields must have implicit presence like the
+// raw descriptor says.  Returns true if the defect shows (and reports it, once per generation, with the
+// finding's signature when the generation is one the classifier covers).
+func twinWitness(c *vh.Ctx, v *voice, raw protoreflect.MessageDescriptor) (defective bool) {
+	in := map[string]any{"type": "Message", "voice": v.name, "content": "( 108 s n 18446744073709551615 u - )"}
+	defer c.Recover("twin witness", in, v.knownSig())
+	m := v.mk()
+	fd := m.Descriptor().Fields().ByNumber(108)
+	rfd := raw.Fields().ByNumber(108)
+	if fd == nil || rfd == nil {
+		return false
+	}
+	m.Set(fd, protoreflect.ValueOfInt32(-1))
+	got, err := detPartial.Marshal(m.Interface())
+	asLegacy := protoimpl.X.ProtoMessageV2Of(v.gen.TwinToV1(protoimpl.X.ProtoMessageV1Of(m.Interface())))
+	want, err2 := detPartial.Marshal(asLegacy)
+	in["bytes"], in["bytes_through_raw_descriptor"] = vh.Hex(got), vh.Hex(want)
+	var what []string
+	if err != nil || err2 != nil || !bytes.Equal(got, want) {
+		what = append(what, fmt.Sprintf("struct-tag-only message marshals to %s, the same struct through its raw descriptor to %s", vh.Hex(got), vh.Hex(want)))
+	}
+	n := 0
+	for i := 0; i < raw.Fields().Len(); i++ {
+		rf := raw.Fields().Get(i)
+		if tf := m.Descriptor().Fields().ByNumber(rf.Number()); tf != nil && tf.HasPresence() != rf.HasPresence() {
+			n++
+		}
+	}
+	if n > 0 {
+		what = append(what, fmt.Sprintf("%d fields of the derived descriptor have HasPresence() != raw descriptor (Syntax() = %v, optional_sfixed32.HasPresence() = %v)", n, fd.Syntax(), fd.HasPresence()))
+	}
+	if len(what) == 0 {
+		return false
+	}
+	c.Check(false, "struct-tag-only proto3 message: "+strings.Join(what, "; "), in, v.knownSig())
+	return true
+}
+
+// storesUnknown: dynamicpb always; a legacy struct only if it has an XXX_unrecognized field.
+func (v *voice) storesUnknown() bool {
+	if v.kind == "dynamic" {
+		return true
+	}
+	g := protoimpl.X.ProtoMessageV1Of(v.mk().Interface())
+	t := reflect.TypeOf(g)
+	if t.Kind() == reflect.Ptr && t.Elem().Kind() == reflect.Struct {
+		_, ok := t.Elem().FieldByName("XXX_unrecognized")
+		return ok
+	}
+	return false
+}
+
+func treeHasUnknown(t *Tree) bool {
+	if len(t.Unknown) > 0 {
+		return true
+	}
+	sub := func(v TVal) bool { return v.Msg != nil && treeHasUnknown(v.Msg) }
+	for _, f := range t.Fields {
+		if f.One != nil && sub(*f.One) {
+			return true
+		}
+		for _, e := range f.List {
+			if sub(e) {
+				return true
+			}
+		}
+		for _, e := range f.Map {
+			if sub(e.V) {
+				return true
+			}
+		}
+	}
+	return false
+}
+
 func extFinderGlobal(md protoreflect.MessageDescriptor, num protoreflect.FieldNumber) protoreflect.ExtensionType {
 	return nil
 }
@@ -417,18 +513,40 @@ func legacyType(c *vh.Ctx, gens []*legacyGen, name string) {
 		if name == "Message" {
 			mk := func() protoreflect.Message { return protoimpl.X.ProtoMessageV2Of(g.NewTwin()).ProtoReflect() }
 			tw := mk()
-			voices = append(voices, &voice{name: g.Dir + "/struct-tag-twin", gen: g, kind: "twin", mk: mk, flat: Flatten(tw.Descriptor(), protoregistry.GlobalTypes)})
+			tv := &voice{name: g.Dir + "/struct-tag-twin", gen: g, kind: "twin", mk: mk, flat: Flatten(tw.Descriptor(), protoregistry.GlobalTypes)}
+			if twinWitness(c, tv, mt.Descriptor()) {
+				// known finding reproduced on this twin (reported once, with the witness): its descriptor is
+				// inconsistent, comparing random contents through it would only repeat the report
+				c.Hist("twin:excluded-known-finding")
+				continue
+			}
+			voices = append(voices, tv)
 			twinDescriptor(c, g, mt.Descriptor(), tw.Descriptor())
 		}
 	}
 	if len(voices) == 0 {
 		return
 	}
+	// corpus first: the empty message of every voice marshals to nothing
+	for _, v := range voices {
+		func() {
+			in := map[string]any{"type": name, "voice": v.name, "content": "( u - )"}
+			defer c.Recover("empty message", in, "")
+			b, err := detPartial.Marshal(v.mk().Interface())
+			c.Check(err == nil && len(b) == 0, fmt.Sprintf("the empty message of %s marshals to %d bytes: %s", v.name, len(b), vh.Hex(b)), in, v.knownSig())
+		}()
+	}
 	// the schema as the model sees it must be the same for every voice
 	ref := voices[0]
 	for _, v := range voices[1:] {
-		if !sameLines(ref.flat.Lines, v.flat.Lines) {
-			c.Check(false, "flattened schema of "+v.name+" differs from "+ref.name+": "+firstDiff(ref.flat.Lines, v.flat.Lines), in0, "")
+		a, b := ref.flat.Lines, v.flat.Lines
+		if v.kind == "twin" {
+			// the twin has another full name (no extensions are registered for it) and reaches its
+			// submessages in another order: compare the root's own field lines, without the sub index
+			a, b = rootLines(ref.flat), rootLines(v.flat)
+		}
+		if !sameLines(a, b) {
+			c.Check(false, "flattened schema of "+v.name+" differs from "+ref.name+": "+firstDiff(a, b), in0, "")
 		}
 	}
 	ref.flat.Send(c)
@@ -449,15 +567,34 @@ func legacyType(c *vh.Ctx, gens []*legacyGen, name string) {
 	}
 	for it := 0; it < per && !c.Failed(); it++ {
 		// random content, generated through the reflection API of a random generation
-		src := voices[2*c.Rand.Intn(len(gens))%len(voices)]
+		var legacyVoices []*voice
+		for _, v := range voices {
+			if v.kind == "legacy" {
+				legacyVoices = append(legacyVoices, v)
+			}
+		}
+		src := legacyVoices[c.Rand.Intn(len(legacyVoices))]
 		var exts []protoreflect.ExtensionType
 		for _, xs := range src.flat.Exts {
 			exts = append(exts, xs...)
+		}
+		if it%2 == 1 {
+			exts = nil // the struct-tag twin has its own full name: the generations' extensions do not apply to it
 		}
 		m0 := src.mk()
 		fill(c, m0, 0, Opts{MaxDepth: 2, NegZero: true, FieldProb: 3 + c.Rand.Intn(6)}, exts)
 		t := treeOf(m0)
 		snap := snapTree(t)
+		anyUnknown := treeHasUnknown(t)
+		topExt := hasTopLevel(src.flat.Root, t, func(tf *TField, _ protoreflect.FieldDescriptor) bool { return tf.Ext })
+		topGroup := hasTopLevel(src.flat.Root, t, func(tf *TField, fd protoreflect.FieldDescriptor) bool {
+			return fd != nil && fd.Kind() == protoreflect.GroupKind
+		})
+		// what survives JSON and text: no unknown fields, no NaN payloads
+		lossy := snapTree(normTree(src.flat.Root, t, xfFor(src)))
+		lossyOf := func(v *voice, m protoreflect.Message) string {
+			return snapTree(normTree(m.Descriptor(), treeOf(m), xfFor(v)))
+		}
 		in := map[string]any{"type": name, "content": snap, "generated_in": src.name}
 		wantBytes := ""
 		if c.HasModel() {
@@ -474,6 +611,16 @@ func legacyType(c *vh.Ctx, gens []*legacyGen, name string) {
 		var outs []*out
 		for _, v := range voices {
 			v := v
+			if v.kind == "twin" && topExt {
+				c.Hist("twin:skipped-content-with-extensions")
+				continue
+			}
+			if anyUnknown && !v.storesUnknown() {
+				// proto3 messages generated before 2018-04-30 have no XXX_unrecognized field: the Go type
+				// cannot hold this content
+				c.Hist("skipped:go-type-without-unknown-field-storage")
+				continue
+			}
 			func() {
 				in2 := map[string]any{"type": name, "content": snap, "voice": v.name}
 				defer c.Recover("building / marshalling the content in "+v.name, in2, "")
@@ -485,7 +632,9 @@ func legacyType(c *vh.Ctx, gens []*legacyGen, name string) {
 				if !c.Check(err == nil, "Marshal fails in "+v.name+": "+fmt.Sprint(err), in2, "") {
 					return
 				}
-				c.Check(v.flat.Snap(m) == snap, "reflection snapshot of "+v.name+" differs from the content it was built from", in2, "")
+				if got := v.flat.Snap(m); got != snap {
+					c.Check(false, "reflection snapshot of "+v.name+" differs from the content it was built from: "+snapDiff(snap, got), in2, "")
+				}
 				if wantBytes != "" {
 					c.Compare("encdet: model deterministic bytes vs "+v.kind+" voice", in2, vh.Hex(o.det), wantBytes)
 				}
@@ -506,7 +655,10 @@ func legacyType(c *vh.Ctx, gens []*legacyGen, name string) {
 		}
 		for i, o := range outs {
 			in2 := map[string]any{"type": name, "content": snap, "voice": o.v.name, "reference": r0.v.name}
-			c.Check(bytes.Equal(o.det, r0.det), "deterministic bytes of "+o.v.name+" differ from "+r0.v.name, in2, "")
+			if !bytes.Equal(o.det, r0.det) {
+				in2["bytes"], in2["reference_bytes"] = vh.Hex(o.det), vh.Hex(r0.det)
+				c.Check(false, "deterministic bytes of "+o.v.name+" differ from "+r0.v.name, in2, o.v.knownSig())
+			}
 			c.Check((o.jsErr == nil) == (r0.jsErr == nil), "protojson.Marshal verdict differs", in2, "")
 			if o.jsErr == nil && r0.jsErr == nil {
 				c.Check(normPkg(canonJSON(o.js)) == normPkg(canonJSON(r0.js)), "protojson output of "+o.v.name+" differs from "+r0.v.name, in2, "")
@@ -524,12 +676,19 @@ func legacyType(c *vh.Ctx, gens []*legacyGen, name string) {
 					m3 := o.v.mk()
 					js := bytes.ReplaceAll(p.js, []byte(p.v.gen.Pkg+"."), []byte(o.v.gen.Pkg+"."))
 					err = protojson.UnmarshalOptions{AllowPartial: true, Resolver: res}.Unmarshal(js, m3.Interface())
-					c.Check(err == nil && o.v.flat.Snap(m3) == snap, "JSON output of "+p.v.name+" decoded by "+o.v.name+" is not the content: "+fmt.Sprint(err), in3, "")
+					c.Check(err == nil && lossyOf(o.v, m3) == lossy, "JSON output of "+p.v.name+" decoded by "+o.v.name+" is not the content (modulo unknown fields and NaN payloads): "+fmt.Sprint(err), in3, "")
+				}
+				if topGroup && (o.v.kind == "twin") != (p.v.kind == "twin") {
+					// harness artefact: the twin's group *fields* are derived from tags while their message types
+					// keep their raw descriptors (another file), so the twin prints them under the field name
+					// (`namedgroup`) and the others under the message name (`NamedGroup`)
+					c.Hist("twin:text-skipped-group-field-name")
+					return
 				}
 				m4 := o.v.mk()
 				txt := bytes.ReplaceAll(p.txt, []byte(p.v.gen.Pkg+"."), []byte(o.v.gen.Pkg+"."))
 				err = prototext.UnmarshalOptions{AllowPartial: true, Resolver: res}.Unmarshal(txt, m4.Interface())
-				c.Check(err == nil && o.v.flat.Snap(m4) == snap, "text output of "+p.v.name+" decoded by "+o.v.name+" is not the content: "+fmt.Sprint(err), in3, "")
+				c.Check(err == nil && lossyOf(o.v, m4) == lossy, "text output of "+p.v.name+" decoded by "+o.v.name+" is not the content (modulo unknown fields and NaN payloads): "+fmt.Sprint(err), in3, "")
 			}()
 			// same descriptor, different implementation: proto.Equal must hold
 			if o.v.kind == "dynamic" && i > 0 && outs[i-1].v.kind == "legacy" && outs[i-1].v.gen == o.v.gen {
@@ -560,6 +719,39 @@ func legacyType(c *vh.Ctx, gens []*legacyGen, name string) {
 			c.Sample(map[string]any{"type": name, "bytes": vh.Hex(r0.det), "voices": len(outs)})
 		}
 	}
+}
+
+// rootLines: the `field` lines of the root message (non-extension), with the sub-message index blanked.
+func rootLines(f *Flat) []string {
+	var out []string
+	for _, l := range f.Lines {
+		w := strings.Fields(l)
+		if len(w) == 11 && w[0] == "field" && w[1] == "0" && w[9] == "0" {
+			w[7] = "_"
+			out = append(out, strings.Join(w, " "))
+		}
+	}
+	return out
+}
+
+// snapDiff shows the first differing tokens of two snapshots.
+func snapDiff(want, got string) string {
+	a, b := strings.Fields(want), strings.Fields(got)
+	i := 0
+	for i < len(a) && i < len(b) && a[i] == b[i] {
+		i++
+	}
+	lo := i - 6
+	if lo < 0 {
+		lo = 0
+	}
+	hi := func(x []string) int {
+		if i+6 < len(x) {
+			return i + 6
+		}
+		return len(x)
+	}
+	return fmt.Sprintf("at token %d want …%s… got …%s…", i, strings.Join(a[lo:hi(a)], " "), strings.Join(b[lo:hi(b)], " "))
 }
 
 func legacyZeroFor(g *legacyGen, name string) any {
@@ -621,7 +813,9 @@ func twinDescriptor(c *vh.Ctx, g *legacyGen, raw, twin protoreflect.MessageDescr
 		cmp("IsList", rf.IsList(), tf.IsList())
 		cmp("IsMap", rf.IsMap(), tf.IsMap())
 		cmp("JSONName", rf.JSONName(), tf.JSONName())
-		cmp("TextName", rf.TextName(), tf.TextName())
+		if rf.Kind() != protoreflect.GroupKind { // see twin:text-skipped-group-field-name
+			cmp("TextName", rf.TextName(), tf.TextName())
+		}
 		cmp("oneof", oneofName(rf), oneofName(tf))
 		if rf.Message() != nil && tf.Message() != nil && !rf.IsMap() {
 			cmp("Message", rf.Message().FullName(), tf.Message().FullName())
